@@ -38,6 +38,7 @@ def body(run: Run, replay):
     gen, rbt = res.tagged("GENERIC")[0]
     gen = {int(k): v for k, v in gen.items()} if isinstance(gen, dict) else {i + 1: v for i, v in enumerate(gen)}
     topos = res.tagged("TOPO")
+    um_choices = sorted((tuple(tuple(b_) for b_ in m_), tuple(tuple(b_) for b_ in r_)) for m_, r_ in (res.tagged("UM")[0][0] if res.tagged("UM") else []))
     rng = np.random.default_rng(run.seed + 14)
     K = 3
 
@@ -258,6 +259,50 @@ def body(run: Run, replay):
                 if np.linalg.matrix_rank(rbd[rows_], tol=1e-8) == 6 and not close(lhs, rhs, 1e-8, scale):
                     run.violation("formrbe3: rigid-body motion of the independent grids is not reproduced at the dependent grid (max dev %.3g)" % np.abs(lhs - rhs).max(),
                                   {"types": types, "ind": str(il)}, dict(tags0, fn="formrbe3"))
+        # growth: formrbe3 with a re-assigned m-set (UM option).  The spec enumerates every m-set of two DOF blocks among the dependent
+        # grid's translations / rotations and the translations of three independent grids; the matrix must state the same constraint
+        if ng >= 4 and um_choices:
+            import warnings as _w
+            dep, ind3 = gids[-1], gids[:3]
+            gmap = {0: dep, 1: ind3[0], 2: ind3[1], 3: ind3[2]}
+            try:
+                il_um = [123456, ind3[:1], 123, ind3[1:]]
+                R0 = n2p.formrbe3(full, dep, 123456, il_um)
+            except Exception:
+                R0 = None
+            dof_of = lambda blk: [(gmap[blk[0]], d_) for d_ in ((1, 2, 3) if blk[1] == "t" else (4, 5, 6))]
+            for Mseq, Rseq in (um_choices if R0 is not None else []):
+                mdof = [x for blk in Mseq for x in dof_of(blk)]
+                rdof = [x for blk in Rseq for x in dof_of(blk)]
+                ddof = [(dep, d_) for d_ in range(1, 7)]
+                idof_ = [(ind3[0], d_) for d_ in range(1, 7)] + [(g_, d_) for g_ in ind3[1:] for d_ in (1, 2, 3)]
+                # constraint [I, -R0] on [u_dep; u_ind]: the m-set columns must be invertible (documented: choose a non-singular m-set)
+                Cfull = np.hstack((np.eye(6), -R0))
+                alld = ddof + idof_
+                Cm = Cfull[:, [alld.index(x) for x in mdof]]
+                if np.linalg.cond(Cm) > 1e4:
+                    continue
+                um = []
+                for blk in Mseq:
+                    if um and um[-2] == gmap[blk[0]]:
+                        um[-1] = 123456
+                    else:
+                        um += [gmap[blk[0]], 123 if blk[1] == "t" else 456]
+                ucase = {"types": types, "m_set": str(um)}
+                run.case(("um", ti, str(um)), part="formrbe3 UM (growth)")
+                try:
+                    with _w.catch_warnings():
+                        _w.simplefilter("ignore")
+                        Rm = n2p.formrbe3(full, dep, 123456, il_um, um)
+                    ui = rng.standard_normal((12, 4))
+                    val = dict(zip(idof_, ui))
+                    val.update(zip(ddof, R0 @ ui))
+                    lhs = np.array([val[x] for x in mdof])
+                    rhs = Rm @ np.array([val[x] for x in rdof])
+                    if Rm.shape != (6, 12) or not close(lhs, rhs, 1e-7 * np.linalg.cond(Cm), max(1.0, np.abs(lhs).max())):
+                        run.deviation("CoordSys.UmLaws", "formrbe3 with UM_List does not state the constraint of the plain element (rows = m-set, columns = the other DOF, table order)", ucase)
+                except Exception as ex:
+                    run.deviation("CoordSys.UmLaws", "formrbe3 with UM_List raised %r on an invertible m-set" % ex, ucase)
         # replace_basic_cs: the model moves rigidly
         newcs = np.array([[77, 1, 0], rng.uniform(-5, 5, 3), rng.uniform(-5, 5, 3) + 8, rng.uniform(-5, 5, 3) - 8])
         try:
